@@ -91,6 +91,7 @@ def common_units():
     u.append(table("quote_idents", F_PE, "qi"))
     u.append(raw("specs_bridge", _read("specs_bridge.rs")))
     u.append(raw("specs_lemma_defs", _read("lemma_defs.rs")))
+    u.append(raw("specs_guards", _read("specs_guards.rs")))
 
     # ------------------------------------------------------------------ derived Clone (A5)
     u.append(raw("clone_specs", """
@@ -127,6 +128,17 @@ TRAIT_INNER_EXPR = {"kind": "trait", "file": F_EMOD, "name": "InnerExpr", "heade
                   ]),
                   fn("is_replaceable", "r"),
               ]}
+
+
+def _assume(units):
+    """module-local copies of functions verified in module `core`: contract only (modular verification)"""
+    out = []
+    for un in units:
+        un = dict(un)
+        if un.get("kind") == "fns":
+            un["fns"] = [dict(f, mode="assumed", closures={}, proof_prologue="", proof_epilogue="", subst=[]) for f in un["fns"]]
+        out.append(un)
+    return out
 
 
 def core_units():
@@ -192,6 +204,7 @@ def core_units():
 
     # ------------------------------------------------------------------ ExprGroup
     u.append(ty(F_EG, "ExprGroup"))
+    u.append(raw("clone_expr_group", "// A5\nimpl<E: InnerExpr + Clone> Clone for ExprGroup<E> { #[verifier::external_body] fn clone(&self) -> (r: Self) ensures r == *self { unimplemented!() } }\n"))
     u.append(fns(F_EG, [
         fn("new", "r", ensures=["r.expr == expr", "r.action == action"]),
         fn("expr", "r", ensures=["*r == self.expr"]),
@@ -283,6 +296,7 @@ def gen_units():
     u.append(ty(F_JO, "StepAcc"))
     u.append(ty(F_JO, "JoinOutput"))
     u.append(raw("specs_gen", _read("specs_gen.rs")))
+    u.append(raw("specs_stack", _read("specs_stack.rs")))
     u.append(fns(F_JO, [
         fn("new", "r", ensures=["r.expr == expr", "r.branch_index == branch_index", "r.expr_index == expr_index"]),
     ], self_ty="ActionExprPos"))
@@ -300,14 +314,71 @@ def gen_units():
         fn("expand_process_expr", "r", requires=["!(expr is UNWRAP)"],
            ensures=["r@ == expanded(self.config.is_async, prev_result@, *expr)"],
            proof_epilogue=""),
+        # out of Verus' reach (closure capturing `&mut index`): contract assumed, exercised by K-C04/K-C13
+        fn("extract_results_tuple", "r", mode="assumed",
+           requires=["results_var.tokenizable()", "all_tokenizable(result_vars@)"],
+           ensures=["step_number is None ==> r@ == extract_all(results_var.toks(), seq_toks_sep(result_vars@, ','), handler)"]),
+        # C13: the handler call
+        fn("generate_handle", "r",
+           ensures=["r@ == doc_handle(self.config.is_async, handler_kind(self.handler), results_var.toks(), handler_name.toks(), result_names_toks(self.branch_count as nat))"],
+           proof_epilogue="proof { lemma_names_sep(result_vars@, self.branch_count as nat); }",
+           closures={"0": {"params": ["usize"], "ret": "(r: Ident)", "ensures": ["r.name() =~= construct_result_name_spec(__c0p0)"]}},
+           subst=[{"find": "let &Config { is_async, .. } = config;", "replace": "let is_async = config.is_async;",
+                   "why": "Verus does not support reference patterns; same binding"},
+                  {"find": "(0..self.branch_count).map(construct_result_name).collect()",
+                   "replace": "result_name_vec(self.branch_count)",
+                   "why": "Verus has no spec for Range::map::collect; the helper (verified in this file) is the same loop written out and calls the real construct_result_name"}]),
+        fn("separate_block_expr", "r", mode="assumed",
+           ensures=["sep_ok(*inner_expr, branch_index, expr_index, r)"]),
+        # C01/C11/C17: what one action contributes to the definition stream and to the step stream
+        fn("generate_def_and_step_streams", "r",
+           requires=["action_expr_pos is Some ==> printable(action_expr_pos->0.expr.expr)"],
+           ensures=[
+               "action_expr_pos is None ==> opt_view(r.0) == opt_view(prev_def_stream) && r.1@ == prev_step_stream@",
+               "action_expr_pos is Some ==> opt_view(r.0) == opt_append(opt_view(prev_def_stream), action_defs(action_expr_pos->0.expr.expr, action_expr_pos->0.branch_index, action_expr_pos->0.expr_index))",
+               "action_expr_pos is Some ==> r.1@ == step_toks(self.config.is_async, prev_step_stream@, printed(action_expr_pos->0.expr.expr, action_expr_pos->0.branch_index, action_expr_pos->0.expr_index))",
+           ],
+           closures=dict([(str(k), {"params": ["TokenStream"], "ret": "(r: TokenStream)",
+                                     "ensures": ["r@ == prev@ + opt_toks(def_stream)"]}) for k in (0, 1, 3)]
+                         + [("2", {"params": ["&[Expr]"], "ret": "(r: Option<&Expr>)",
+                                   "ensures": ["exprs@.len() > 0 ==> r == Some(&exprs@[0])", "exprs@.len() == 0 ==> r is None"]})])),
+        # C02 / C15: `<<<` (explicit or implicit): pop the inner chain and splice it, as a closure, into the recorded wrapper
+        fn("wrap_last_step_stream", "r", proof_prologue="broadcast use lemma_step_toks1, lemma_not_hoisted;", attrs="#[verifier::rlimit(200)]\n",
+           requires=["stack_wf(__arg0.step_streams@)", "__arg0.step_streams@.len() >= 2",
+                     "!(__arg0.step_streams@[__arg0.step_streams@.len() - 2].1->0.expr.expr is Initial)",
+                     "action_expr_pos is Some ==> printable(action_expr_pos->0.expr.expr)"],
+           ensures=[
+               "stack_wf(r.step_streams@)",
+               "r.step_streams@.len() == __arg0.step_streams@.len() - 1",
+               # frame: nothing below the two top frames changes
+               "r.step_streams@.subrange(0, r.step_streams@.len() - 1) =~= __arg0.step_streams@.subrange(0, __arg0.step_streams@.len() - 2)",
+               "action_expr_pos is None ==> r.step_streams@.last().0@ == wrapped_top(self.config.is_async, __arg0.step_streams@)",
+               "action_expr_pos is None ==> opt_view(r.def_stream) == opt_view(__arg0.def_stream)",
+               # (no caller in the repository passes Some(..); that path is covered only by the invariant above)
+           ]),
+        # C02 / C15: one action of a step against the stack
+        fn("process_step_action_expr", "r", proof_prologue="broadcast use lemma_step_toks1, lemma_not_hoisted;",
+           requires=["action_expr_pos is Some", "stack_wf(step_acc.step_streams@)",
+                     "action_expr_pos->0.expr.action.move_type == MoveType::Unwrap ==> (step_acc.step_streams@.len() >= 2 && !(step_acc.step_streams@[step_acc.step_streams@.len() - 2].1->0.expr.expr is Initial))",
+                     "action_expr_pos->0.expr.action.move_type == MoveType::Wrap ==> frame_wrapper_ok(action_expr_pos->0)",
+                     "action_expr_pos->0.expr.action.move_type == MoveType::None ==> printable(action_expr_pos->0.expr.expr)"],
+           ensures=[
+               "stack_wf(r.step_streams@)",
+               "action_expr_pos->0.expr.action.move_type == MoveType::Wrap ==> r.step_streams@.len() == step_acc.step_streams@.len() + 1 && r.step_streams@.last().0@ == seq![Tok::Ident(construct_internal_value_name_spec())] && r.step_streams@[r.step_streams@.len() - 2].1->0.expr == action_expr_pos->0.expr",
+               "action_expr_pos->0.expr.action.move_type == MoveType::Unwrap ==> r.step_streams@.len() == step_acc.step_streams@.len() - 1 && r.step_streams@.last().0@ == wrapped_top(self.config.is_async, step_acc.step_streams@)",
+               "action_expr_pos->0.expr.action.move_type == MoveType::None ==> r.step_streams@.len() == step_acc.step_streams@.len() && r.step_streams@.last().0@ == step_toks(self.config.is_async, step_acc.step_streams@.last().0@, printed(action_expr_pos->0.expr.expr, action_expr_pos->0.branch_index, action_expr_pos->0.expr_index))",
+           ]),
     ], self_ty="JoinOutput"))
+    u.append(fns(F_UTILS, [
+        fn("is_block_expr", "r", ensures=["r == (expr is Block)"]),
+        fn("is_lower_precedence_than_method_call", "r", ensures=["r == low_prec(*expr)"]),
+    ]))
     return u
 
 
 def guards_units():
     """R8 expression extraction from JoinOutput::new (C13 kind/handler compatibility, C16 defaults)"""
     u = []
-    u.append(raw("specs_guards", _read("specs_guards.rs")))
     params = ("handler: Option<&Handler>, futures_crate_path: Option<&Path>, custom_joiner: Option<&TokenStream>, "
               "custom_transpose_results: Option<bool>, lazy_branches: Option<bool>, config: Config, branch_count_in: usize")
     sub = [{"find": "branches.len()", "replace": "branch_count_in", "why": "the only use of `branches` before the guard chain is its length"}]
@@ -344,13 +415,16 @@ def build_plan(repo, module):
     elif module == "names":
         u.append(raw("lemma", _read("lemma_names.rs")))
     elif module == "gen":
-        u += core_units()
+        u += _assume(core_units())
         u += gen_units()
     elif module == "guards":
         u += guards_units()
     else:
         raise KeyError(module)
     u.append(raw("footer", "} // verus!\nfn main() {}\n"))
+    if module == "gen":
+        optargs = {"extract_results_tuple": [2, 3], "generate_def_and_step_streams": [0, 2], "wrap_last_step_stream": [1],
+                   "process_step_action_expr": [0]}
     return {"repo": repo, "units": u, "optargs": optargs}
 
 
@@ -361,21 +435,26 @@ OBLIGATIONS = {
             # operator identity survives hoisting a block operand / splicing a wrapper closure
             ("core", "ProcessExpr::replace_inner_exprs"), ("core", "ErrExpr::replace_inner_exprs"),
             ("core", "InitialExpr::replace_inner_exprs"), ("core", "ActionExpr::replace_inner_exprs"),
-            ("gen", "JoinOutput::expand_process_expr")],
-    "C02": [("core", "Combinator::can_be_wrapper"), ("core", "ActionGroup::to_wrapper_action_expr"),
+            ("gen", "JoinOutput::expand_process_expr"), ("gen", "JoinOutput::generate_def_and_step_streams")],
+    "C02": [("gen", "JoinOutput::wrap_last_step_stream"), ("gen", "JoinOutput::process_step_action_expr"),
+            ("gen", "lemma_step_toks1"), ("core", "Combinator::can_be_wrapper"), ("core", "ActionGroup::to_wrapper_action_expr"),
             ("core", "ProcessExpr::replace_inner_exprs"), ("core", "ErrExpr::replace_inner_exprs"),
             ("core", "InitialExpr::replace_inner_exprs"), ("core", "ActionExpr::replace_inner_exprs"),
             ("core", "ExprGroup::replace_inner_exprs")],
     "C04": [("gen", "JoinOutput::is_branch_active_in_step"), ("gen", "JoinOutput::generate_indexed_step_results_name")],
     "C07": [("entries", "lemma_entry_table")],
-    "C13": [("guards", "new_guards")],
+    "C13": [("guards", "new_guards"), ("gen", "JoinOutput::generate_handle")],
+    "C15": [("gen", "JoinOutput::wrap_last_step_stream"), ("gen", "JoinOutput::process_step_action_expr"),
+            ("gen", "JoinOutput::generate_def_and_step_streams"), ("gen", "JoinOutput::expand_process_expr"),
+            ("core", "ProcessExpr::to_tokens")],
     "C14": [("det", "lemma_first_match_is_longest"), ("optable", "lemma_operator_tables")],
     "C16": [("guards", "new_init_lazy_branches"), ("guards", "new_init_transpose")],
-    "C17": [("names", "lemma_names_never_clash"), ("names", "lemma_names_table"), ("names", "lemma_name3_injective"), ("names", "lemma_name1_injective"), ("names", "lemma_distinguishable"), ("names", "lemma_names_strlits")] + [("core", n) for n in ['construct_var_name', 'construct_step_results_name', 'construct_result_name', 'construct_thread_builder_name', 'construct_inspect_fn_name', 'construct_spawn_tokio_fn_name', 'construct_results_name', 'construct_handler_name', 'construct_internal_value_name', 'construct_thread_builder_fn_name', 'construct_expr_wrapper_name']],
+    "C17": [("names", "lemma_names_never_clash"), ("names", "lemma_names_table"), ("names", "lemma_name3_injective"), ("names", "lemma_name1_injective"), ("names", "lemma_distinguishable"), ("names", "lemma_names_strlits"), ("gen", "JoinOutput::generate_def_and_step_streams")] + [("core", n) for n in ['construct_var_name', 'construct_step_results_name', 'construct_result_name', 'construct_thread_builder_name', 'construct_inspect_fn_name', 'construct_spawn_tokio_fn_name', 'construct_results_name', 'construct_handler_name', 'construct_internal_value_name', 'construct_thread_builder_fn_name', 'construct_expr_wrapper_name']],
     "C20": [("core", n) for n in ['construct_var_name', 'construct_step_results_name', 'construct_result_name', 'construct_thread_builder_name', 'construct_inspect_fn_name', 'construct_spawn_tokio_fn_name', 'construct_results_name', 'construct_handler_name', 'construct_internal_value_name', 'construct_thread_builder_fn_name', 'construct_expr_wrapper_name']],
     "C11": [("core", "ProcessExpr::is_replaceable"), ("core", "ProcessExpr::inner_exprs"),
             ("core", "ProcessExpr::replace_inner_exprs"), ("core", "ErrExpr::inner_exprs"),
             ("core", "ErrExpr::replace_inner_exprs"), ("core", "InitialExpr::inner_exprs"),
             ("core", "InitialExpr::replace_inner_exprs"), ("core", "ActionExpr::inner_exprs"),
-            ("core", "ExprGroup::inner_exprs"), ("core", "ExprGroup::is_replaceable")],
+            ("core", "ExprGroup::inner_exprs"), ("core", "ExprGroup::is_replaceable"),
+            ("gen", "JoinOutput::generate_def_and_step_streams")],
 }
